@@ -19,3 +19,32 @@ package exported
 
 // verif:iface ClientState.VerifyPacketAcknowledgement(ctx, store, cdc, height, proof, srcChain, dstChain, sequence, ackBytes)
 //@ ensures [verified] result == nil ==> verifiedAck(recv, store, height, proof, srcChain, dstChain, sequence, ackBytes)
+
+// ---- state-changing client methods: they only write through the client's own prefix store -------
+// verif:spec latestHeightOf(cs ClientState) Height
+// verif:spec headerHeight(h Header) Height
+// verif:spec consTypeOf(cs ConsensusState) string
+
+// verif:iface ClientState.GetLatestHeight()
+//@ ensures [fn] result == latestHeightOf(recv)
+
+// verif:iface ConsensusState.ClientType()
+//@ ensures [fn] result == consTypeOf(recv)
+
+// verif:iface ClientState.Initialize(ctx, cdc, store, consState)
+//@ modifies store
+
+// verif:iface ClientState.UpgradeState(ctx, cdc, store, consState)
+//@ modifies store
+
+// verif:iface ClientState.Status(ctx, store, cdc)
+//@ ensures [read-only] true
+
+// verif:iface ClientState.CheckHeaderAndUpdateState(ctx, cdc, store, header)
+//@ modifies store
+
+// verif:iface ClientState.CheckMsg(msg)
+//@ ensures [read-only] true
+
+// verif:iface Header.GetHeight()
+//@ ensures [fn] result == headerHeight(recv)
